@@ -81,6 +81,7 @@ type Interp struct {
 	reached   map[string]bool
 	observes  []Observation
 	clockLast *term.Term
+	clockHalf *term.Term // 0/1 half-second part of the last ClockFine reading, or nil
 	uuidSeq   int // per-path counter: uuid.New() returns distinct, deterministic values
 	usedIntrinsics map[string]bool
 	usedStubs      map[string]bool
